@@ -28,7 +28,12 @@ FinalOut(K, p) == IF p \notin K THEN 0 ELSE Val(p) - Acc(K,p)
 NodeLen(K,p) == Cardinality(Inputs(K,p))
 Trans(K,p,i) == LET b == SortedInputs(K,p)[i+1] IN [inp |-> b, out |-> TransOut(K,p,b), addr |-> Append(p,b)]
 FindInput(K,p,b) == IF b \in Inputs(K,p) THEN CHOOSE i \in 0..(NodeLen(K,p)-1) : SortedInputs(K,p)[i+1] = b ELSE -1
-\* ---- automaton = [start, delta, match, can]
+\* ---- automaton = [start, delta, match, can, eof]
+\* eof[s] = 0, or the state the automaton's end-of-key hook (accept_eof) moves to from s: the
+\* reader asks the hook when the node just entered is final and takes the verdict from the
+\* hook's state, while the state pushed on the stack and reported stays s.  As coded, the hook
+\* is not asked for the empty key.
+EofMatch(A, s) == IF A.eof[s] # 0 THEN A.eof[s] \in A.match ELSE s \in A.match
 Run(A, k) == LET RECURSIVE R(_,_) R(s,i) == IF i > Len(k) THEN s ELSE R(A.delta[s][k[i]], i+1) IN R(A.start, 1)
 \* ---- bounds: <<"none">>, <<"inc",k>>, <<"exc",k>>
 Exceeded(hi, k) == CASE hi[1] = "inc" -> Lex(hi[2], k) [] hi[1] = "exc" -> Leq(hi[2], k) [] OTHER -> FALSE
@@ -65,7 +70,7 @@ Loop(K, A, hi, stack, inp) ==
              ns == A.delta[st.aut][t.inp] inp2 == Append(inp, t.inp)
              stack2 == rest \o << [st EXCEPT !.trans = @ + 1], [node |-> t.addr, trans |-> 0, out |-> out, aut |-> ns] >> IN
        IF Exceeded(hi, inp2) THEN [stack |-> <<>>, inp |-> inp2, item |-> <<>>]
-       ELSE IF t.addr \in K /\ ns \in A.match THEN [stack |-> stack2, inp |-> inp2, item |-> << [key |-> inp2, val |-> out + FinalOut(K,t.addr), st |-> ns] >>]
+       ELSE IF t.addr \in K /\ EofMatch(A, ns) THEN [stack |-> stack2, inp |-> inp2, item |-> << [key |-> inp2, val |-> out + FinalOut(K,t.addr), st |-> ns] >>]
        ELSE Loop(K, A, hi, stack2, inp2)
 VARIABLES K, A, lo, hi, stack, inp, empty, outs, pc
 vars == <<K, A, lo, hi, stack, inp, empty, outs, pc>>
@@ -92,7 +97,8 @@ Next == DoSeek \/ NextCall
 Spec == Init /\ [][Next]_vars
 \* ---- abstract definition
 InLo(k) == CASE lo[1] = "inc" -> Leq(lo[2], k) [] lo[1] = "exc" -> Lex(lo[2], k) [] OTHER -> TRUE
-Want == SetToSortSeq({ k \in K : InLo(k) /\ ~Exceeded(hi, k) /\ Run(A,k) \in A.match }, Lex)
+AcceptsKey(k) == IF k = <<>> THEN A.start \in A.match ELSE EofMatch(A, Run(A, k))
+Want == SetToSortSeq({ k \in K : InLo(k) /\ ~Exceeded(hi, k) /\ AcceptsKey(k) }, Lex)
 Correct == pc = "end" => /\ Len(outs) = Len(Want)
                          /\ \A i \in 1..Len(outs) : outs[i].key = Want[i] /\ outs[i].val = Val(Want[i]) /\ outs[i].st = Run(A, Want[i])
 \* lock step: non-root frames = Len(inp) ; each frame's aut = run on the prefix
